@@ -7,7 +7,7 @@ from .. import index_tour as it
 from .. import tlc
 
 DEAD_OK = {"RenamePage", "SwapNotes", "StripMd", "BreakPage", "FixPage", "DbCreateRefused", "DbReindexRefused",
-           "MoveNote", "EditKind", "DelPage", "AddPage", "NextDay"}
+           "MoveNote", "EditKind", "DelPage", "AddPage", "NextDay", "RestorePage"}
 
 
 def design(ctx, cfgs: list) -> None:
